@@ -9,7 +9,7 @@
 From Coq Require Import String Ascii List Bool Arith ZArith.
 Import ListNotations.
 Require Import PyBase PyStr Lex LexCoverFacts Symbols Split SplitFacts SplitChunks SplitChunksFacts SplitBalanceFacts Merge ParseEq ParseEqFacts ParseModel ParseModelFacts ParseModelExamples
-               ParseContribFacts ParseContribExamples FormatDecideFacts SplitInsertFacts.
+               ParseContribFacts ParseContribExamples FormatDecideFacts SplitInsertFacts ParseOracleFacts.
 Open Scope string_scope.
 
 Section C13.
@@ -105,6 +105,13 @@ Section C13.
     final_state s0 a = Some st' -> buffer st' = [] -> is_blank l = true ->
     split_M s2 = split_M s1 /\ parse_model_M chk cs s2 = parse_model_M chk cs s1.
   Proof. exact (blank_line_between_statements_irrelevant chk cs s1 s2 a b l st'). Qed.
+
+  (* "never executes the model's statements", as far as the model can say it: compile() is handed nothing but the code
+     strings generated for the script's statements — two oracles that agree on those give the same result *)
+  Theorem C13_oracle_sees_only_generated_codes chk' cs s :
+    (forall st syms c, In st (fst (split_M s)) -> parse_equation_M st = POk syms -> In c (codes_of syms) -> chk c = chk' c) ->
+    parse_model_M chk cs s = parse_model_M chk' cs s.
+  Proof. exact (oracle_sees_only_generated_codes chk chk' cs s). Qed.
 End C13.
 Print Assumptions C13_every_exception_classified.
 Print Assumptions C13_own_errors_only.
@@ -117,6 +124,7 @@ Print Assumptions C13_no_statement_discarded.
 Print Assumptions C13_every_statement_contributes.
 Print Assumptions C13_model_decides_unless_stray_brace.
 Print Assumptions C13_blank_line_between_statements_irrelevant.
+Print Assumptions C13_oracle_sees_only_generated_codes.
 
 (* one statement, taken alone: a verbatim statement or a guarded equation yields exactly one emitting symbol *)
 Theorem C13_statement_emits_one st syms :
